@@ -13,6 +13,9 @@ class GzipMiddleware(Middleware):
 
     def request(self, next, request):
         resp = next()
+        if not hasattr(resp, 'vary'):
+            # e.g., an HTTPException (a bare BaseResponse): pass through
+            return resp
         # TODO: shortcut redirects/304s/responses without content?
         resp.vary.add('Accept-Encoding')
         if resp.content_encoding or not request.accept_encodings['gzip']:
